@@ -53,6 +53,43 @@ pub fn giant(kind: u64) -> (Sprite, &'static str) {
             sp.ext_files.retain(|f| seen.insert(f.id));
             (sp, "300-of-everything")
         }
+        5 => {
+            // more layers than 16 bits can number, with groups (one hidden) and nested children beyond index 65535
+            let mut sp = Sprite::blank(2, 2, Fmt::Rgba, 2);
+            for i in 0..65_536u32 {
+                let mut l = LayerM::image(if i % 1000 == 7 { "Base" } else { "" });
+                l.opacity = (i % 256) as u8;
+                l.flags = if i % 5 == 0 { 2 } else { 3 };
+                sp.layers.push(l);
+            }
+            let shape: [(u16, bool, bool, &str); 12] = [
+                (0, true, false, "hidden group"),
+                (1, false, true, "child"),
+                (1, true, true, "inner group"),
+                (2, false, true, "Base"),
+                (2, false, false, "grandchild"),
+                (1, false, true, "child"),
+                (0, true, true, "visible group"),
+                (1, true, true, "g"),
+                (2, true, false, "g"),
+                (3, false, true, "deep"),
+                (0, false, true, "top"),
+                (0, false, true, "Base"),
+            ];
+            for (level, group, vis, name) in shape {
+                let mut l = LayerM::image(name);
+                l.level = level;
+                l.flags = 2 | vis as u16;
+                if group {
+                    l.kind = LayerKind::Group;
+                }
+                sp.layers.push(l);
+            }
+            for l in [0u16, 7, 65_535] {
+                sp.cels.insert((1, l), CelM { x: 0, y: 0, opacity: 255, content: CelContentM::Image { w: 1, h: 1, pixels: vec![l as u8, 2, 3, 255] }, ud: None });
+            }
+            (sp, "65548-layers-groups-beyond-65535")
+        }
         3 => {
             // both dimensions of the cel table beyond 256, with links into late frames
             let n = 300usize;
@@ -114,7 +151,7 @@ pub fn giant_files() -> Vec<(String, Vec<u8>)> {
     let mut rng = crate::rng::Rng::new(7);
     let mut v = crate::program::Variation::none();
     v.default_storage = Storage::Raw;
-    for k in [0u64, 1, 3, 4, 99] {
+    for k in [0u64, 1, 3, 4, 5, 99] {
         let (sp, name) = giant(k);
         let bytes = crate::encode::encode(&crate::program::compile(&sp, &mut rng, &v)).0;
         out.push((format!("giant:{}", name), bytes));
